@@ -28,6 +28,8 @@ def show(t, depth=0):
     k = t[0]
     if k == "c":
         v = t[2]
+        if t[1] == "bool" and isinstance(v, int):
+            return "true" if v else "false"
         return repr(v) if isinstance(v, str) else str(v)
     if k == "adt":
         name = "::".join(t[1].split("::")[-2:])
